@@ -277,8 +277,12 @@ def run_c10(prop, tier):
         c = {"text": text, "generator": g, "pre": rng.choice(PRE), "poison": poison, "via_cli": rng.random() < 0.5}
         if prop == "C10" and rng.random() < 0.2:
             # a plug-in check rejecting with an arbitrary payload, in any category and position
-            c.update({"text": 'version: "3"\n\n' + "\n".join(GOOD) + "\n", "poison": None, "generator": "vtest", "via_cli": False,
-                      "vtest": {"category": rng.choice(["struct", "enum", "impl", "type", "device"]),
+            c.update({"text": 'version: "3"\n\n' + "\n".join(GOOD) +
+                      '\nimpl uart for A as Asig {\n    id: 30,\n    signal x {\n        note: 2,\n    },\n}\n', "poison": None, "generator": "vtest",
+                      "via_cli": False,
+                      # every category that has nodes in this schema, the derived ones (fields of structs, signal blocks of
+                      # bindings, the union "type") included; the general verifier already has a check in some of them
+                      "vtest": {"category": rng.choice(["struct", "enum", "impl", "type", "device", "field", "field", "signal_block"]),
                                 "reject": rng.random() < 0.7,
                                 "payload": rng.choice(["fcp-error", "empty-str", "zero", "none", "empty-list", "false", "text", "seven"]),
                                 "position": rng.choice(["only", "after-pass", "before-pass"])}})
